@@ -11,20 +11,20 @@ import (
 )
 
 type FuncSummary struct {
-	Fi      *FuncInfo
-	In      *Interp
-	Rets    []*RetRec
-	Stores  []*Store
-	Notes   []Note
-	Reads   []*Rec
-	Sites   []*Site
-	Calls   []*CallRec
-	Copies  []*CopyRec
-	Allocs  []*AllocSite
-	Loops   []*LoopRec
-	Final   *State
-	Defers  []*ast.DeferStmt
-	Gos     []*ast.GoStmt
+	Fi       *FuncInfo
+	In       *Interp
+	Rets     []*RetRec
+	Stores   []*Store
+	Notes    []Note
+	Reads    []*Rec
+	Sites    []*Site
+	Calls    []*CallRec
+	Copies   []*CopyRec
+	Allocs   []*AllocSite
+	Loops    []*LoopRec
+	Final    *State
+	Defers   []*ast.DeferStmt
+	Gos      []*ast.GoStmt
 	Switches []*SwitchRec
 }
 
@@ -48,10 +48,10 @@ type EncSum struct {
 }
 
 type summaryCache struct {
-	lens   map[*types.Func]*LenSum
-	encs   map[*types.Func]*EncSum
-	busy   map[*types.Func]bool
-	funcs  map[string]*FuncSummary
+	lens  map[*types.Func]*LenSum
+	encs  map[*types.Func]*EncSum
+	busy  map[*types.Func]bool
+	funcs map[string]*FuncSummary
 }
 
 func (w *World) cache() *summaryCache {
